@@ -1,5 +1,6 @@
 import CCT.Model.SignSteps
 import CCT.Props.C11
+import CCT.Model.GpgSteps
 /-!
 # C18 — in-place signing is all-or-nothing with respect to failures  (partial: the OS is run, not modelled)
 
@@ -357,5 +358,237 @@ theorem success_writes_signed_document (C : CryptoFns) (key : J) (file : Option 
                   | _ => cases ha
               | _ => cases ha
           | _ => cases e5
+
+/-! ## the GPG signing path (`sign_root_metadata_via_gpg`), step machine `Model/GpgSteps.lean` -/
+
+
+/-- a compute step never changes the file and never opens it for writing -/
+theorem gpg_compute_step_preserves (G : GpgBackend) (sslib : Bool) (fpr : J) (st st' : GpgSt) (s : GpgStep) (hs : s.isOutput = false)
+    (h : execGpgStep G sslib fpr st s = .ok st') : st'.file = st.file ∧ (st'.opens.filter (· = .write)) = st.opens.filter (· = .write) := by
+  cases s <;> simp only [GpgStep.isOutput] at hs <;> simp only [execGpgStep] at h
+  all_goals (try (cases hs))
+  · split at h
+    · cases h; simp
+    · cases h
+  · split at h
+    · cases h; exact ⟨rfl, rfl⟩
+    · cases h
+  · simp only [bind, Except.bind] at h
+    split at h
+    · cases h
+    · simp only [pure, Except.pure] at h; cases h; exact ⟨rfl, rfl⟩
+  · split at h
+    · cases h; exact ⟨rfl, rfl⟩
+    · cases h
+  · split at h
+    · simp only [bind, Except.bind] at h
+      split at h
+      · cases h
+      · simp only [pure, Except.pure] at h; cases h; exact ⟨rfl, rfl⟩
+    · cases h
+  · simp only [bind, Except.bind] at h
+    split at h
+    · cases h
+    · simp only [pure, Except.pure] at h; cases h; exact ⟨rfl, rfl⟩
+  · simp only [bind, Except.bind] at h
+    split at h
+    · cases h
+    · simp only [pure, Except.pure] at h; cases h; exact ⟨rfl, rfl⟩
+  · split at h
+    · simp only [bind, Except.bind] at h
+      split at h
+      · cases h
+      · split at h
+        · simp only [pure, Except.pure] at h; cases h; exact ⟨rfl, rfl⟩
+        all_goals cases h
+    · cases h
+  · cases h; exact ⟨rfl, rfl⟩
+
+
+
+theorem gpg_step_mem (G : GpgBackend) (sslib : Bool) (fpr : J) (st st' : GpgSt) (s : GpgStep) (hs : s.isOutput = false)
+    (h : execGpgStep G sslib fpr st s = .ok st') : st'.file = st.file ∧ (OpenEv.write ∈ st'.opens ↔ OpenEv.write ∈ st.opens) := by
+  obtain ⟨h1, h2⟩ := gpg_compute_step_preserves G sslib fpr st st' s hs h
+  refine ⟨h1, ?_⟩
+  have e : ∀ l : List OpenEv, OpenEv.write ∈ l ↔ OpenEv.write ∈ l.filter (· = .write) := fun l => by simp
+  rw [e st'.opens, e st.opens, h2]
+
+theorem gpg_no_write_before_output (G : GpgBackend) (sslib : Bool) (fpr : J) (fault : Option Nat) :
+    ∀ (steps : List GpgStep) (i : Nat) (st : GpgSt), (∀ s ∈ steps, s.isOutput = false) →
+      (runGpgSteps G sslib fpr fault i steps st).2.file = st.file ∧
+      (OpenEv.write ∈ (runGpgSteps G sslib fpr fault i steps st).2.opens ↔ OpenEv.write ∈ st.opens)
+  | [], _, _, _ => ⟨rfl, Iff.rfl⟩
+  | s :: r, i, st, h => by
+    simp only [runGpgSteps]
+    split
+    · exact ⟨rfl, Iff.rfl⟩
+    · cases he : execGpgStep G sslib fpr st s with
+      | error e => exact ⟨rfl, Iff.rfl⟩
+      | ok st' =>
+        have hp := gpg_step_mem G sslib fpr st st' s (h s (by simp)) he
+        have ih := gpg_no_write_before_output G sslib fpr fault r (i + 1) st' (fun x hx => h x (by simp [hx]))
+        simp only
+        exact ⟨ih.1.trans hp.1, ih.2.trans hp.2⟩
+
+theorem gpg_append_fault (G : GpgBackend) (sslib : Bool) (fpr : J) (k : Nat) :
+    ∀ (pre post : List GpgStep) (i : Nat) (st : GpgSt), k < i + pre.length →
+      runGpgSteps G sslib fpr (some k) i (pre ++ post) st = runGpgSteps G sslib fpr (some k) i pre st ∨
+      (runGpgSteps G sslib fpr (some k) i pre st).1 = .done
+  | [], _, i, _, h => by simp at h; right; rfl
+  | s :: r, post, i, st, h => by
+    simp only [List.cons_append, runGpgSteps]
+    split
+    · left; rfl
+    · cases he : execGpgStep G sslib fpr st s with
+      | error e => left; rfl
+      | ok st' =>
+        simp only
+        exact gpg_append_fault G sslib fpr k r post (i + 1) st' (by simp at h; omega)
+
+theorem gpg_fault_stops_in_prefix (G : GpgBackend) (sslib : Bool) (fpr : J) (k : Nat) :
+    ∀ (pre : List GpgStep) (i : Nat) (st : GpgSt), i ≤ k → k < i + pre.length → (runGpgSteps G sslib fpr (some k) i pre st).1 ≠ .done
+  | [], i, _, h1, h2 => by simp at h2; omega
+  | s :: r, i, st, h1, h2 => by
+    simp only [runGpgSteps]
+    by_cases e : k = i
+    · subst e; simp
+    · have : ¬ (some k = some i) := fun h => e (Option.some.inj h)
+      simp only [this, if_false]
+      cases he : execGpgStep G sslib fpr st s with
+      | error e => simp
+      | ok st' => exact gpg_fault_stops_in_prefix G sslib fpr k r (i + 1) st' (by omega) (by simp at h2; omega)
+
+def gpgCompute : List GpgStep := [.openRead, .parse, .checkDep, .checkSignable, .serializeSigned, .callSigner, .fetchKey, .attach, .serialize]
+
+theorem gpgPlan_split : gpgPlan = gpgCompute ++ [.openTrunc, .write] := rfl
+
+theorem gpgCompute_no_output : ∀ s ∈ gpgCompute, s.isOutput = false := by decide
+
+/-- **GPG path: a failure at any step before the output phase leaves the file byte-identical and never opens it for writing** — whatever the
+signer, the fingerprint, the file content and the fault point -/
+theorem gpg_fault_anywhere_before_output (G : GpgBackend) (sslib : Bool) (fpr : J) (file : Option Bytes) (k : Nat) (hk : k < gpgCompute.length) :
+    (runGpgSign G sslib fpr file (some k)).2.file = file ∧ OpenEv.write ∉ (runGpgSign G sslib fpr file (some k)).2.opens := by
+  unfold runGpgSign
+  rw [gpgPlan_split]
+  rcases gpg_append_fault G sslib fpr k gpgCompute [.openTrunc, .write] 0 (initGpgSt file) (by omega) with h | h
+  · rw [h]
+    have := gpg_no_write_before_output G sslib fpr (some k) gpgCompute 0 (initGpgSt file) gpgCompute_no_output
+    exact ⟨this.1, fun hw => by have := this.2.mp hw; simp [initGpgSt] at this⟩
+  · exact absurd h (gpg_fault_stops_in_prefix G sslib fpr k gpgCompute 0 (initGpgSt file) (by omega) (by omega))
+
+/-- **GPG path: any failure of the library, the signer or the optional dependency leaves the file untouched** -/
+theorem gpg_failure_leaves_file (G : GpgBackend) (sslib : Bool) (fpr : J) (file : Option Bytes) (e : PyErr) (st : GpgSt)
+    (h : runGpgSign G sslib fpr file none = (.failed e, st)) : st.file = file := by
+  unfold runGpgSign at h
+  rw [gpgPlan_split] at h
+  have key_lemma : ∀ (pre : List GpgStep) (i : Nat) (s0 : GpgSt), (∀ s ∈ pre, s.isOutput = false) →
+      runGpgSteps G sslib fpr none i (pre ++ [.openTrunc, .write]) s0 = (.failed e, st) → st.file = s0.file := by
+    intro pre
+    induction pre with
+    | nil =>
+      intro i s0 _ h
+      simp [runGpgSteps, execGpgStep] at h
+    | cons s r ih =>
+      intro i s0 hno h
+      simp only [List.cons_append, runGpgSteps] at h
+      have : ¬ ((none : Option Nat) = some i) := by simp
+      simp only [this, if_false] at h
+      cases he : execGpgStep G sslib fpr s0 s with
+      | error e' => rw [he] at h; simp only at h; cases h; rfl
+      | ok s1 =>
+        rw [he] at h; simp only at h
+        have hp := gpg_step_mem G sslib fpr s0 s1 s (hno s (by simp)) he
+        exact (ih (i + 1) s1 (fun x hx => hno x (by simp [hx])) h).trans hp.1
+  exact key_lemma gpgCompute 0 (initGpgSt file) gpgCompute_no_output h
+
+theorem gpg_done_cons (G : GpgBackend) (sslib : Bool) (fpr : J) (i : Nat) (s : GpgStep) (r : List GpgStep) (st fin : GpgSt)
+    (h : runGpgSteps G sslib fpr none i (s :: r) st = (.done, fin)) :
+    ∃ st', execGpgStep G sslib fpr st s = .ok st' ∧ runGpgSteps G sslib fpr none (i + 1) r st' = (.done, fin) := by
+  simp only [runGpgSteps] at h
+  have : ¬ ((none : Option Nat) = some i) := by simp
+  simp only [this, if_false] at h
+  cases he : execGpgStep G sslib fpr st s with
+  | error e => rw [he] at h; simp at h
+  | ok st' => rw [he] at h; exact ⟨st', rfl, h⟩
+
+
+
+/-- **GPG path: what a successful run writes is exactly what the value-level function computes** (`signRootMdFileViaGpg`, characterised in C10),
+written once after everything has been computed and serialized: one open for reading, then one for writing -/
+theorem gpg_success_writes_result (G : GpgBackend) (fpr : J) (file : Option Bytes) (st : GpgSt)
+    (h : runGpgSign G true fpr file none = (.done, st)) :
+    ∃ b, signRootMdFileViaGpg G true file fpr = .ok b ∧ st.file = some b ∧ st.opens = [.read, .write] := by
+  unfold runGpgSign gpgPlan at h
+  obtain ⟨s1, e1, h1⟩ := gpg_done_cons G true fpr _ _ _ _ _ h
+  obtain ⟨s2, e2, h2⟩ := gpg_done_cons G true fpr _ _ _ _ _ h1
+  obtain ⟨s3, e3, h3⟩ := gpg_done_cons G true fpr _ _ _ _ _ h2
+  obtain ⟨s4, e4, h4⟩ := gpg_done_cons G true fpr _ _ _ _ _ h3
+  obtain ⟨s5, e5, h5⟩ := gpg_done_cons G true fpr _ _ _ _ _ h4
+  obtain ⟨s6, e6, h6⟩ := gpg_done_cons G true fpr _ _ _ _ _ h5
+  obtain ⟨s7, e7, h7⟩ := gpg_done_cons G true fpr _ _ _ _ _ h6
+  obtain ⟨s8, e8, h8⟩ := gpg_done_cons G true fpr _ _ _ _ _ h7
+  obtain ⟨s9, e9, h9⟩ := gpg_done_cons G true fpr _ _ _ _ _ h8
+  obtain ⟨s10, e10, h10⟩ := gpg_done_cons G true fpr _ _ _ _ _ h9
+  obtain ⟨s11, e11, h11⟩ := gpg_done_cons G true fpr _ _ _ _ _ h10
+  simp only [runGpgSteps] at h11
+  cases h11
+  -- openRead
+  simp only [execGpgStep, initGpgSt] at e1
+  cases hf : file with
+  | none => rw [hf] at e1; cases e1
+  | some fb =>
+    rw [hf] at e1; simp only at e1; cases e1
+    -- parse
+    simp only [execGpgStep] at e2
+    cases hl : loadFile (some fb) with
+    | error e => rw [hl] at e2; cases e2
+    | ok env =>
+      rw [hl] at e2; simp only at e2; cases e2
+      -- checkDep
+      simp only [execGpgStep, checkSslib, if_true, okU, bind, Except.bind, pure, Except.pure] at e3
+      cases e3
+      -- checkSignable
+      simp only [execGpgStep] at e4
+      by_cases hs : isSignableJ env = true
+      · rw [if_pos hs] at e4; cases e4
+        -- serializeSigned
+        simp only [execGpgStep] at e5
+        cases env with
+        | obj top =>
+          simp only [bind, Except.bind] at e5
+          cases hsg : dictIndex (ps! "signed") top with
+          | error e => rw [hsg] at e5; cases e5
+          | ok signed =>
+            rw [hsg] at e5; simp only [pure, Except.pure] at e5; cases e5
+            -- callSigner
+            simp only [execGpgStep, bind, Except.bind] at e6
+            cases hv : signViaGpg G true (.bytes (ser signed)) fpr false with
+            | error e => rw [hv] at e6; cases e6
+            | ok sg =>
+              rw [hv] at e6; simp only [pure, Except.pure] at e6; cases e6
+              -- fetchKey
+              simp only [execGpgStep, bind, Except.bind] at e7
+              cases hq : fetchKeyvalFromGpg G true fpr with
+              | error e => rw [hq] at e7; cases e7
+              | ok q =>
+                rw [hq] at e7; simp only [pure, Except.pure] at e7; cases e7
+                -- attach
+                simp only [execGpgStep, bind, Except.bind] at e8
+                cases hss : dictIndex (ps! "signatures") top with
+                | error e => rw [hss] at e8; cases e8
+                | ok sigs =>
+                  rw [hss] at e8
+                  cases sigs with
+                  | obj entries =>
+                    simp only [pure, Except.pure] at e8; cases e8
+                    simp only [execGpgStep] at e9 e10 e11
+                    cases e9; cases e10; cases e11
+                    refine ⟨_, ?_, rfl, rfl⟩
+                    simp only [signRootMdFileViaGpg, hl, bind, Except.bind, signRootMdDictViaGpg, checkSslib, if_true, okU, hs, Bool.not_true,
+                      Bool.false_eq_true, if_false, hsg, hv, hq, hss, pure, Except.pure]
+                  | _ => simp at e8
+        | _ => simp at e5
+      · rw [if_neg hs] at e4; cases e4
+
 
 end CCT.C18
